@@ -630,8 +630,8 @@ func (r *c17Run) checkStored(e *c17Exp, got []storedMsg) {
 		legal = [][]string{res.Mailboxes}
 	case res.Kind == "edit": // returned as passed in; the statement does not say whether discarded recipients are passed in
 		legal = [][]string{e.boxAll, e.boxStore}
-	default: // fresh message, mailboxes never set: none returned (or, leniently, the original ones)
-		legal = [][]string{nil, e.boxAll, e.boxStore}
+	default: // fresh message, mailboxes never set: the hook returned no mailbox, "exactly the mailboxes the hook returned" is none
+		legal = [][]string{nil}
 	}
 	okBoxes := false
 	for _, l := range legal {
@@ -732,7 +732,7 @@ func init() {
 			"at RCPT the session's 'to' list ends with the recipient being decided (the only way a handler can see it)",
 			"a handler's deny without arguments fixes no code or text; only the refusal class is checked",
 			"a message returned unchanged in a field carries the value Inbucket passed in: header From, header To (made equal to the accepted envelope recipients), Subject; " +
-				"for unchanged mailboxes both 'all accepted recipients' and 'recipients that policy stores' are accepted; unset fields of a fresh message may be empty or original",
+				"for unchanged mailboxes both 'all accepted recipients' and 'recipients that policy stores' are accepted; an unset sender, subject or recipient list of a fresh message may be stored empty or as the original; a fresh message whose mailboxes were never set is delivered nowhere",
 			"addresses are syntactically valid and lower-case, no verbatim duplicate recipients, recipient limit out of reach (C01/C03/C04 cover those)",
 			"Lua code itself runs without scheduling points (gopher-lua is not instrumented): interleavings are at pool locks, broker locks and connection operations; " +
 				"the data-race clause needs race mode and is not decided by this check",
